@@ -43,6 +43,7 @@ type plCase struct {
 	// published message stays queued while the workers go on to decode and encode all later datagrams
 	LazyDrain bool           `json:"lazy_drain,omitempty"`
 	ExactFit  bool           `json:"exact_fit,omitempty"` // UDPSize was derived from a datagram's own length
+	Verbose   bool           `json:"verbose,omitempty"`   // workers log every datagram (verbose: true)
 	Filter    []uint32       `json:"filter,omitempty"`
 	Exporters []wire.Hex     `json:"exporters"`
 	Phases    [][]plDatagram `json:"phases"`
@@ -77,6 +78,7 @@ func genPipeline(t *rapid.T, proto string, envs map[string]*wire.GenEnv, maxPhas
 	c.UDPSize = rapid.SampledFrom([]int{1500, 1500, 1500, 1500, 600, 2048, 9000, 9000, 65535}).Draw(t, "udpsize")
 	c.Race = rapid.Bool().Draw(t, "race")
 	c.LazyDrain = rapid.Bool().Draw(t, "lazydrain")
+	c.Verbose = rapid.IntRange(0, 3).Draw(t, "verbose") == 0
 	if rapid.IntRange(0, 2).Draw(t, "withchurn") == 0 {
 		c.Churn = rapid.SampledFrom([]int{1, 2, 3, 7, 20, 50}).Draw(t, "churn")
 	}
@@ -455,7 +457,7 @@ func runPipeline(prop string, c *plCase) (v verdict, sig string, err error) {
 	if c.Workers < 1 || c.UDPSize < 1 || len(c.Exporters) == 0 {
 		return v, "", fmt.Errorf("bad case")
 	}
-	req := drvRequest{Op: "pipeline", Proto: c.Proto, Workers: c.Workers, UDPSize: c.UDPSize, OtherUDPSize: c.OtherUDPSize, Churn: c.Churn, LazyDrain: c.LazyDrain, Filter: c.Filter, ResetCache: true}
+	req := drvRequest{Op: "pipeline", Proto: c.Proto, Workers: c.Workers, UDPSize: c.UDPSize, OtherUDPSize: c.OtherUDPSize, Churn: c.Churn, LazyDrain: c.LazyDrain, Verbose: c.Verbose, Filter: c.Filter, ResetCache: true}
 	for _, ph := range c.Phases {
 		for _, d := range ph {
 			if d.Exp < 0 || d.Exp >= len(c.Exporters) {
@@ -631,6 +633,7 @@ func runPipeline(prop string, c *plCase) (v verdict, sig string, err error) {
 	v.label(c.OtherUDPSize > 0 && c.OtherUDPSize != c.UDPSize, "independent-udp-sizes")
 	v.label(c.Churn > 0, "worker-churn")
 	v.label(c.LazyDrain, "slow-consumer")
+	v.label(c.Verbose, "verbose-logging")
 	v.label(c.ExactFit, "udp-size-fitted-to-a-datagram")
 	if prop == "C13" {
 		v.NT = classMix
